@@ -6,7 +6,7 @@
     for ALL patterns / variables / plugs / maps; "concrete" = no metavariables or pending
     substitutions. *)
 From Coq Require Import NArith List Bool.
-From Pi2 Require Import ML.Syntax ML.Subst ML.Facts ML.Concrete ML.JudgeInst ML.Algebra ML.Sem.
+From Pi2 Require Import ML.Syntax ML.Subst ML.Facts ML.Concrete ML.JudgeInst ML.Algebra ML.Compose ML.Sem.
 Import ListNotations.
 Open Scope N_scope.
 Notation gs := guards_sound.
@@ -55,6 +55,24 @@ Proof. exact (inst_resolves gs). Qed.
 Theorem C11_inst_identity_untouched : forall p vars plugs, touches p vars = false -> inst gs p vars plugs = Some p.
 Proof. exact (inst_untouched gs). Qed.
 Print Assumptions C11_inst_resolves_substitutions.
+
+(** composition: instantiating twice equals instantiating once with the composed map (whenever the
+    first step and the composed instantiation are defined; the composed plugs are d'(d(i)) for the
+    keys of d, then d') — for ALL meta-patterns incl. pending substitutions, partial maps, and maps
+    whose values mention other metavariables *)
+Theorem C11_inst_compose : forall p v1 p1 v2 p2 p1' q1 q3,
+  length v1 = length p1 -> inst_all gs p1 v2 p2 = Some p1' ->
+  inst gs p v1 p1 = Some q1 -> inst gs p (v1 ++ v2) (p1' ++ p2) = Some q3 -> inst gs q1 v2 p2 = Some q3.
+Proof. intros p. exact (inst_compose gs p). Qed.
+Print Assumptions C11_inst_compose.
+(** the converse definedness does not hold (the checker may reject the composed map conservatively) *)
+Theorem C11_compose_converse_refuted :
+  let p := MVar 0 [] [] [5] [] [] in
+  let d_plug := ESub (MVar 1 [] [] [5] [] []) 7 (MVar 2 [] [5] [] [] []) in
+  exists q1 q2,
+    inst gs p [0] [d_plug] = Some q1 /\ inst gs q1 [1] [EVar 7] = Some q2 /\
+    inst_all gs [d_plug] [1] [EVar 7] = Some [q2] /\ inst gs p ([0] ++ [1]) ([q2] ++ [EVar 7]) = None.
+Proof. exact compose_converse_refuted. Qed.
 
 (** the substitution lemmas of the semantics (any model, any carrier — in particular finite ones) *)
 Theorem C11_ssubst_semantic : forall D app_i sym_i av, av_ok D av -> forall p X plug q v,
